@@ -152,7 +152,7 @@ def drive(tier):
     nrec_obj = 0
     for idx, d in enumerate(descs):
         js = gen.tx_json(d)
-        encs = one("tx", js, [lambda: gen.build_tx(d, False), lambda: gen.build_tx(d, True)], (True, False))
+        encs = one("tx", js, [lambda: gen.build_tx(d, False), lambda: gen.build_tx(d, True), lambda: gen.build_tx(d, bool(idx & 1), alt=True)], (True, False))
         if idx % 3 == 0:
             reserialise_after_edits(d)
         if not encs:
@@ -205,6 +205,8 @@ def drive(tier):
         d = gen.gen_header(r)
         js = gen.header_json(d)
         encs = one("header", js, [lambda: gen.build_header(d)])
+        if not encs:
+            continue            # the failure to serialise is already on record
         enc = encs[0]
         cuts = list(range(len(enc) + 1))
         ks = [classify("header", *call(CBlockHeader.deserialize, enc[:c]))["k"] for c in cuts]
@@ -240,13 +242,14 @@ def drive(tier):
         call(blk.calc_merkle_root)
         for t_ in blk.vtx:
             call(t_.GetTxid), call(t_.GetHash), call(t_.has_witness), call(t_.is_coinbase), call(CheckTransaction, t_)
-        for b_ in (blk, gen.build_block(d, not (bi & 1)), blk.get_header() if bi % 5 == 0 else blk):
-            if not isinstance(b_, CBlock):
-                continue
+        kf_, fresh_ = call(gen.build_block, d, not (bi & 1))
+        for b_ in (blk, fresh_ if kf_ == "ret" else blk):
             k2, enc_ = call(b_.serialize)
             R.add("wire.ser", {"kind": "block", "obj": js, "withwit": True},
                   {"k": "ret", "v": b2l(enc_)} if k2 == "ret" else dict(exc_info(enc_), k="exc"))
-        enc = blk.serialize()
+        k9, enc = call(blk.serialize)
+        if k9 != "ret":
+            continue                    # the failure is on record above
         k, v = call(CBlock.deserialize, enc)
         R.add("wire.deser", {"kind": "block", "buf": b2l(enc), "pad": False, "obj": js}, classify("block", k, v))
         cuts = cuts_for(enc, r, 1200)
